@@ -58,6 +58,7 @@ func rulesC04(c *Ctx) {
 	typedNilC04(c)
 	nilErrRule(c, "C04.nilerr")
 	revisitRule(c, "C04.revisit")
+	nilReceiverRule(c, "C04.nilrecv")
 	// ---- token ring ----
 	tokringC04(c)
 	// ---- rune ring ----
